@@ -186,6 +186,9 @@ def run(ctx):
                          ([("prov:value", Identifier(g.choice(['http://h/res/x" bgcolor="red', "http://h/q?a=1&b=<2>", "http://h/plain"])))]
                           if g.chance(0.5) else []) +
                          ([("prov:location", QualifiedName(ns, g.choice(['l"oc', "loc"])))] if g.chance(0.3) else []))
+        if g.chance(0.2):
+            if b.lookalike(d):
+                ctx.count("lookalike-names")
         doc = w.conts[d]
         combos = [dict(show_nary=a, use_labels=b_, show_element_attributes=c_, show_relation_attributes=d_)
                   for a in (True, False) for b_ in (True, False) for c_ in (True, False) for d_ in (True, False)]
